@@ -107,6 +107,20 @@ void scenariosArchives(Emitter& e)
 		Archive::ClmFile::CreateArchive("o.clm", { "ab.wav", "sub/C_1.WAV" }); e.emit("clm-2-tracks", "order0", mc::readFile("o.clm"));
 		Archive::ClmFile::CreateArchive("o.clm", { "./sub/C_1.WAV", "./ab.wav" }); e.emit("clm-2-tracks", "order1", mc::readFile("o.clm"));
 		e.emit("clm-2-tracks", "reference", ref::encodeClm(ref::waveFormat(0), { { "ab", w1.data }, { "C_1", w2.data } }).bytes);
+		{
+			// mixed-case names in two directories: every permutation of the list, and a second spelling, must give the same bytes
+			ref::WavSpec wa; wa.data = pay(4, 0x21); ref::WavSpec wb; wb.data = pay(2, 0x31); ref::WavSpec wd; wd.data = pay(5, 0x41);
+			mc::writeFile("Bass.wav", ref::encodeWav(wb)); mc::writeFile("sub/alto.wav", ref::encodeWav(wa)); mc::writeFile("drum.wav", ref::encodeWav(wd));
+			std::vector<std::string> perm = { "Bass.wav", "drum.wav", "sub/alto.wav" };
+			std::sort(perm.begin(), perm.end());
+			int k = 0;
+			do {
+				Archive::ClmFile::CreateArchive("om.clm", perm); e.emit("clm-mixed-case", "perm" + std::to_string(k), mc::readFile("om.clm"));
+				std::vector<std::string> dotted; for (auto& x : perm) dotted.push_back("./" + x);
+				Archive::ClmFile::CreateArchive("om.clm", dotted); e.emit("clm-mixed-case", "dotted-perm" + std::to_string(k++), mc::readFile("om.clm"));
+			} while (std::next_permutation(perm.begin(), perm.end()));
+			e.emit("clm-mixed-case", "reference", ref::encodeClm(ref::waveFormat(0), { { "alto", wa.data }, { "Bass", wb.data }, { "drum", wd.data } }).bytes);
+		}
 		Archive::ClmFile::CreateArchive("e.clm", {}); e.emit("clm-empty", "library", mc::readFile("e.clm")); e.emit("clm-empty", "reference", ref::encodeClm(ref::waveFormat(0), {}).bytes);
 		Archive::ClmFile c("o.clm"); c.ExtractFile(1, "x.wav");
 		auto x = mc::readFile("x.wav"); e.emit("clm-extracted-wav", "library", x);
@@ -177,6 +191,26 @@ void scenariosBitmaps(Emitter& e)
 			Stream::DynamicMemoryWriter w3; g.WriteIndexed(w3); e.emit("tileset-loaded-and-saved-as-bmp", td ? "from-top-down" : "from-bottom-up", drain(w3));
 		}
 		e.emit("tileset-custom", "reference", ref::encodeCustomTileset(pic));
+		// a tileset with a three-colour palette saved before and after a full-palette one: same bytes both times (padding is black)
+		{
+			auto makePartial = [&] { std::vector<Color> p3(pal.begin() + 5, pal.begin() + 8); std::vector<uint8_t> px(32 * 32, 1); BitmapFile f = BitmapFile::CreateIndexed(8, 32, -32, pal, px); f.palette = p3; return f; };
+			ref::RPicture part; part.height = 32; for (int i = 0; i < 256; ++i) part.palette.push_back(i < 3 ? pic.palette[5 + i] : ref::RColor{ 0, 0, 0, 0 }); part.rowsTopDown.assign(32 * 32, 1);
+			{ Stream::DynamicMemoryWriter w; Tileset::WriteCustomTileset(w, makePartial()); e.emit("tileset-custom-partial-palette", "first", drain(w)); }
+			{ std::vector<uint8_t> px(32 * 32, 2); Stream::DynamicMemoryWriter w; Tileset::WriteCustomTileset(w, BitmapFile::CreateIndexed(8, 32, -32, pal, px)); drain(w); }
+			{ Stream::DynamicMemoryWriter w; Tileset::WriteCustomTileset(w, makePartial()); e.emit("tileset-custom-partial-palette", "after-a-full-palette-tileset", drain(w)); }
+			e.emit("tileset-custom-partial-palette", "reference", ref::encodeCustomTileset(part));
+		}
+	}
+	// format detectors on streams shorter than the signature they look for: the answer (or the refusal) is a function of the bytes
+	{
+		auto detect = [&](const std::string& group, const std::vector<uint8_t>& bytes) {
+			std::unique_ptr<uint8_t[]> p(new uint8_t[bytes.size() ? bytes.size() : 1]); std::memcpy(p.get(), bytes.data(), bytes.size());
+			std::string out;
+			{ Stream::MemoryReader rd(p.get(), bytes.size()); auto o = mc::guarded([&] { out += BitmapFile::PeekIsBitmap(rd) ? "bmp:yes" : "bmp:no"; }); if (o.cls != 'R') out += "bmp:refused"; out += "@" + std::to_string(rd.Position()); }
+			{ Stream::MemoryReader rd(p.get(), bytes.size()); auto o = mc::guarded([&] { out += Tileset::PeekIsCustomTileset(rd) ? " custom:yes" : " custom:no"; }); if (o.cls != 'R') out += " custom:refused"; out += "@" + std::to_string(rd.Position()); }
+			e.emit(group, "library", out);
+		};
+		detect("detect-empty", {}); detect("detect-B", { 'B' }); detect("detect-BM", { 'B', 'M' }); detect("detect-P", { 'P' }); detect("detect-PB", { 'P', 'B' }); detect("detect-PBM", { 'P', 'B', 'M' }); detect("detect-PBMP", { 'P', 'B', 'M', 'P' });
 	}
 }
 
